@@ -113,6 +113,13 @@ theorem UnitQ_ite {α : Type} [Field α] {c : Prop} [Decidable c] {a b : Quat α
   · exact ha h
   · exact hb h
 
+theorem sabs_of_nonneg {α : Type} [Field α] [LinearOrder α] [IsStrictOrderedRing α] {a : α} (h : 0 ≤ a) : sabs a = a := by
+  simp only [sabs]; split_ifs with h1
+  · rfl
+  · have : a = 0 := le_antisymm (not_lt.mp h1) h
+    rw [this]; simp
+
+
 /-! ### the real `atan2`; the 4-D angle lies in [0, π) unless q1 = -q2 -/
 
 /-- the real two-argument arctangent `atan2 (y, x)`: the argument of `x + i y` -/
